@@ -25,15 +25,26 @@
 From Verif Require Import Go.Ty Go.Val Go.Equal Go.Compare.
 Open Scope Z_scope.
 
+(* one pass over the (unary) id: id / 50 is 2, 3 for 100..199; 4, 5 for 200..299; 6 for 300..349;
+   7 for 350..399 (the evaluator asks at every named node of every comparison) *)
 Definition meth_kind (id : nat) : option bool :=      (* Some ptr_param *)
-  if (100 <=? id)%nat && (id <? 200)%nat then Some false
-  else if (200 <=? id)%nat && (id <? 300)%nat then Some true
-  else if (300 <=? id)%nat && (id <? 350)%nat then Some false
-  else if (350 <=? id)%nat && (id <? 400)%nat then Some true
-  else None.
+  match Nat.div id 50 with
+  | 2%nat | 3%nat => Some false
+  | 4%nat | 5%nat => Some true
+  | 6%nat => Some false
+  | 7%nat => Some true
+  | _ => None
+  end.
 
 (* the magnitude class: the methods look at the second field and Compare returns a difference *)
-Definition meth_mag (id : nat) : bool := ((300 <=? id)%nat && (id <? 400)%nat)%bool.
+Definition meth_mag (id : nat) : bool :=
+  match Nat.div id 50 with 6%nat | 7%nat => true | _ => false end.
+
+Example meth_kind_bounds :
+  map meth_kind [99; 100; 199; 200; 299; 300; 349; 350; 399; 400]%nat
+  = [None; Some false; Some false; Some true; Some true; Some false; Some false; Some true; Some true; None] /\
+  map meth_mag [299; 300; 399; 400]%nat = [false; true; true; false].
+Proof. split; reflexivity. Qed.
 
 Definition r_meth (r : resolved) : option bool :=
   match r_named r with Some (id, _) => meth_kind id | None => None end.
